@@ -241,100 +241,122 @@ def build_obligations(fns, consts):
     return ctx, obligations, encoded, con
 
 
+def units_for(pid):
+    import mir_specs
+    units = []
+    if pid == "C12":
+        units.append(("help column arithmetic", build_obligations))
+    for f in mir_specs.SPECS.get(pid, []):
+        units.append((f.__name__, f))
+    return units
+
+
 def run(pid, tier, seed, a):
+    """returns (exit code, evidence dict)"""
     t0 = time.time()
     evidence = {"property_id": pid, "tier": tier, "seed": seed, "level": "model_checking", "coverage": {}, "assumptions": [], "wall_s": 0, "violations": 0}
+    built = []
     try:
         path, cmd, dump_s = dump_mir()
         fns, consts = mir.load(path)
-        ctx, obligations, encoded, con = build_obligations(fns, consts)
+        for label, f in units_for(pid):
+            ctx, obligations, encoded, con = f(fns, consts)
+            built.append((label, ctx, obligations, encoded, con))
     except (Unsupported, RuntimeError) as e:
         print(f"INCONCLUSIVE property={pid} reason=MIR translation refused: {e}")
         evidence["coverage"] = {"explanation": f"translation refused: {e}", "evaluations": 1, "distinct_nontrivial": 0, "samples": [str(e)]}
-        write_evidence(evidence, t0, a)
-        return 2
+        evidence["wall_s"] = round(time.time() - t0, 1)
+        return 2, evidence
     finally:
         for f in os.listdir(SCRATCH) if os.path.isdir(SCRATCH) else []:
             if f.startswith("mir-%d" % os.getpid()):
                 os.remove(os.path.join(SCRATCH, f))
     solver = Solver()
-    samples, sat_obs, bad = [], [], []
-    # vacuity: the assumptions alone must be satisfiable, and every obligation's path must be reachable
-    base = solver.ask(symex.script(ctx, [], "true"))
-    if not all(r[0] == "sat" for r in base.values()):
-        print(f"INCONCLUSIVE property={pid} reason=assumptions unsatisfiable or solver error: { {k: v[0] for k, v in base.items()} }")
-        return 2
-    reachable = 0
-    for ob in obligations:
-        q = symex.script(ctx, ob["pc"], ob["neg"])
-        r = solver.ask(q)
-        verdicts = {k: v[0] for k, v in r.items()}
-        reach = solver.ask(symex.script(ctx, ob["pc"], "true"))
-        is_reach = all(v[0] == "sat" for v in reach.values())
-        reachable += is_reach
-        s = {"function": ob["fn"].split("::")[-1], "target": ob["target"], "block": ob["block"], "kind": ob["kind"], "obligation": ob["msg"],
-             "query": "path-condition AND NOT(cond) under the contracts", "z3": verdicts["z3"], "cvc5": verdicts["cvc5"], "path_reachable": is_reach}
-        samples.append(s)
-        if verdicts["z3"] == "unsat" and verdicts["cvc5"] == "unsat":
-            continue
-        if verdicts["z3"] == "sat" and verdicts["cvc5"] == "sat":
-            sat_obs.append((ob, q))
-        else:
-            bad.append((ob, verdicts))
-    violations, known_hits, unrealised = [], [], []
+    samples, bad, violations, known_hits, unrealised, all_encoded, assumptions = [], [], [], [], [], [], []
     known = findings.load()
-    for ob, q in sat_obs:
-        rp = replay_candidate(pid, ctx, ob, q, solver, a)
-        s = next(x for x in samples if x["block"] == ob["block"] and x["target"] == ob["target"] and x["obligation"] == ob["msg"])
-        s["replay"] = {k: rp[k] for k in ("reproduced", "member", "model", "tried") if k in rp}
-        if rp["reproduced"]:
-            kf = match_known(known, pid, ob, rp)
-            if kf:
-                known_hits.append(kf)
+    n_obl = 0
+    for label, ctx, obligations, encoded, con in built:
+        all_encoded += encoded
+        n_obl += len(obligations)
+        assumptions += [f"[{label}] contract: {d} (used {n}x)" for d, n in con.used.items()] + [f"[{label}] assume: {t}" for t, _ in ctx.assumptions]
+        # vacuity: the assumptions alone must be satisfiable
+        base = solver.ask(symex.script(ctx, [], "true"))
+        if not all(r[0] == "sat" for r in base.values()):
+            print(f"INCONCLUSIVE property={pid} unit={label} reason=assumptions unsatisfiable or solver error: { {k: v[0] for k, v in base.items()} }")
+            evidence["wall_s"] = round(time.time() - t0, 1)
+            return 2, evidence
+        sat_obs = []
+        for ob in obligations:
+            q = symex.script(ctx, ob["pc"], ob["neg"])
+            r = solver.ask(q)
+            verdicts = {k: v[0] for k, v in r.items()}
+            reach = solver.ask(symex.script(ctx, ob["pc"], "true"))
+            is_reach = all(v[0] == "sat" for v in reach.values())
+            s = {"unit": label, "function": ob["fn"].split("::")[-1], "target": ob["target"], "block": ob["block"], "kind": ob["kind"], "obligation": ob["msg"],
+                 "query": "path-condition AND NOT(cond) under the contracts", "z3": verdicts["z3"], "cvc5": verdicts["cvc5"], "path_reachable": is_reach}
+            samples.append(s)
+            if verdicts["z3"] == "unsat" and verdicts["cvc5"] == "unsat":
+                continue
+            if verdicts["z3"] == "sat" and verdicts["cvc5"] == "sat":
+                sat_obs.append((ob, q, s))
             else:
-                violations.append((ob, rp))
-        else:
-            unrealised.append((ob, rp))
+                bad.append((ob, verdicts))
+        for ob, q, s in sat_obs:
+            if ob["kind"] == "spec":
+                rp = replay_spec(pid, ctx, ob, q, solver, a)
+            else:
+                rp = replay_candidate(pid, ctx, ob, q, solver, a)
+            s["replay"] = {k: rp[k] for k in ("reproduced", "member", "model", "tried", "note") if k in rp}
+            if rp["reproduced"]:
+                kf = match_known(known, pid, ob, rp)
+                if kf:
+                    known_hits.append(kf)
+                else:
+                    violations.append((ob, rp))
+            else:
+                unrealised.append((ob, rp))
     evidence["coverage"] = {
         "evaluations": solver.n,
         "distinct_nontrivial": sum(1 for s in samples if s["path_reachable"] and s["z3"] == "unsat" and s["cvc5"] == "unsat"),
-        "rule": "one obligation per MIR `assert(!overflow)` / panic edge / derived monotonicity condition on each path of the encoded bodies; "
+        "rule": "one obligation per MIR `assert(!overflow)` / panic edge / derived monotonicity condition / spec clause on each path of the encoded bodies; "
                 "evaluations = solver queries (each asked of z3 AND cvc5, plus a reachability query per obligation); distinct_nontrivial = obligations "
                 "whose path is reachable under the contracts and that both solvers answer unsat.",
         "samples": samples,
-        "functions_encoded": encoded,
-        "obligations": len(obligations),
+        "functions_encoded": all_encoded,
+        "obligations": n_obl,
         "discharged_unsat_both_solvers": sum(1 for s in samples if s["z3"] == "unsat" and s["cvc5"] == "unsat"),
         "bounds": "loop-free MIR bodies, usize as 64-bit bit-vectors; display widths < 2^48; no unrolling needed (loops are not encoded: the write_args loop BODY is, once)",
         "queries_discharged": solver.n,
         "solver_time_s": {k: round(v, 2) for k, v in solver.time.items()},
         "mir_dump_cmd": cmd, "mir_dump_s": round(dump_s, 1),
-        "outside_bounds": "everything in help rendering except this column arithmetic: which items are listed, templates, wrapping, usage; relation between an Arg's flags and its displayed width (free in the encoding; candidates are realised by native replay)",
+        "engine": "mirsmt: rustc nightly MIR -> SMT-LIB2 bit-vectors, z3 4.8.12 + cvc5 1.0",
+        "outside_bounds": "callee results are free symbols under the listed contracts (a change inside an opaque callee is not seen); loops are not encoded; "
+                          "for C12: which items are listed beyond the visibility predicate, templates, wrapping, usage",
         "exhaustive": False,
     }
-    evidence["assumptions"] = [f"contract: {d} (used {n}x)" for d, n in con.used.items()] + [f"assume: {t}" for t, _ in ctx.assumptions] + [
+    evidence["assumptions"] = assumptions + [
         "every Arg passed to align_to_about went through write_args' first loop exactly once (read from write_args: ord_v is filled in that loop)",
-        "f32 casts/comparisons are free booleans (over-approximation)"]
+        "f32 casts/comparisons are free booleans (over-approximation)"] if pid == "C12" else assumptions
     evidence["violations"] = len(violations)
     evidence["unrealised_candidates"] = [f"{ob['target']}:{ob['block']} {ob['msg']}" for ob, _ in unrealised]
-    write_evidence(evidence, t0, a)
+    evidence["wall_s"] = round(time.time() - t0, 1)
     for kf in known_hits:
         print(f"KNOWN-FINDING: property={pid} {kf['what']}")
     for s in samples:
-        print(f"[{pid}] {s['target']:<28} {s['block']:<5} {s['kind']:<8} z3={s['z3']:<6} cvc5={s['cvc5']:<6} reach={s['path_reachable']} {s['obligation'][:60]}")
+        print(f"[{pid}] {s['target']:<28} {s['block']:<5} {s['kind']:<8} z3={s['z3']:<6} cvc5={s['cvc5']:<6} reach={s['path_reachable']} {s['obligation'][:70]}")
     if violations:
         for ob, rp in violations:
-            print(f"  overflow reachable: {ob['target']} {ob['block']}: {ob['msg']}  model={rp.get('model')} member={rp.get('member')}")
+            print(f"  violated: {ob['target']} {ob['block']}: {ob['msg']}  witness={rp.get('member')}")
             print(f"VIOLATION property={pid} replay={rp['path']}")
-        return 1
+        return 1, evidence
     if bad or unrealised:
         for ob, v in bad:
             print(f"INCONCLUSIVE property={pid} obligation={ob['target']}:{ob['block']} solvers={v}")
         for ob, rp in unrealised:
-            print(f"INCONCLUSIVE property={pid} unrealised candidate (contract too weak or replay family too small): {ob['target']}:{ob['block']} {ob['msg']} model={rp.get('model')}")
-        return 2
-    print(f"OK property={pid} tier={tier} obligations={len(obligations)} queries={solver.n} wall={time.time()-t0:.0f}s")
-    return 0
+            print(f"INCONCLUSIVE property={pid} unrealised candidate (contract too weak or replay family too small): {ob['target']}:{ob['block']} {ob['msg']} note={rp.get('note')}")
+        return 2, evidence
+    print(f"OK property={pid} tier={tier} engine=mirsmt obligations={n_obl} queries={solver.n} wall={time.time()-t0:.0f}s")
+    return 0, evidence
 
 
 def match_known(known, pid, ob, rp):
@@ -342,15 +364,6 @@ def match_known(known, pid, ob, rp):
         if k["pid"] == pid and k["harness"] == ob["target"] and k["check"] in (rp.get("member") or ""):
             return k
     return None
-
-
-def write_evidence(ev, t0, a):
-    if getattr(a, "no_evidence", False):
-        return
-    ev["wall_s"] = round(time.time() - t0, 1)
-    os.makedirs(os.path.join(VERIF, "evidence"), exist_ok=True)
-    with open(os.path.join(VERIF, "evidence", ev["property_id"] + ".json"), "w") as f:
-        json.dump(ev, f, indent=1)
 
 
 # ------------------------------------------------------------------ native replay
@@ -406,6 +419,44 @@ def replay_candidate(pid, ctx, ob, q, solver, a):
         f.write("# re-run: cd /repo/clap_builder && RUSTFLAGS='--cfg clap_verif' CLAP_VERIF_DIR=/verif/harness VERIF_C12_MODEL='{\"target\":\"" + ob["target"] + "\"}' "
                 "cargo test --lib --no-default-features --features std,help,usage,error-context verif_harness::native_c12 -- --nocapture\n")
         f.write(nat["output"] + "\n")
+    return res
+
+
+def replay_spec(pid, ctx, ob, q, solver, a):
+    """A violated spec clause is realised through the PUBLIC API by harness/native_spec.rs: small
+    exhaustive families on which the statement the clause encodes is evaluated against the real crate."""
+    out_dir = os.path.join(os.environ.get("VERIF_REPLAY_DIR", os.path.join(VERIF, "replays")), pid)
+    os.makedirs(out_dir, exist_ok=True)
+    path = os.path.join(out_dir, f"{ob['target']}_spec.txt")
+    r = solver.ask(q, want_model=True)
+    model = {k: v for k, v in parse_model(r["z3"][1], ctx).items() if "closure" not in k}
+    key = "spec:" + ob["target"]
+    if key not in _NATIVE_CACHE:
+        tdir = os.path.join(SCRATCH, "spec-native-%d" % os.getpid())
+        env = dict(os.environ, CARGO_NET_OFFLINE="true", CARGO_TARGET_DIR=tdir, RUSTFLAGS="--cfg clap_verif",
+                   CLAP_VERIF_DIR=os.path.join(VERIF, "harness"), VERIF_SPEC_TARGET=ob["target"])
+        lines = []
+        for prof in ([], ["--release"]):
+            cmd = ["cargo", "test", "--lib", "--offline", "--no-default-features", "--features", FEATURES] + prof + ["verif_harness::native_spec", "--", "--nocapture", "--test-threads=1"]
+            try:
+                p = subprocess.run(cmd, cwd=os.path.join(REPO, "clap_builder"), env=env, capture_output=True, text=True, timeout=1500)
+                out = p.stdout + p.stderr
+            except subprocess.TimeoutExpired:
+                out = "timeout"
+            lines += [("release: " if prof else "dev: ") + l for l in out.split("\n") if l.startswith("SPEC-REPLAY")]
+            if "test result: ok" not in out and "test result: FAILED" not in out:
+                lines.append(("release: " if prof else "dev: ") + "NATIVE RUN DID NOT COMPLETE: " + out[-300:].replace("\n", " "))
+        shutil.rmtree(tdir, ignore_errors=True)
+        _NATIVE_CACHE[key] = lines
+    lines = _NATIVE_CACHE[key]
+    mism = [l for l in lines if "SPEC-REPLAY MISMATCH" in l]
+    res = {"reproduced": bool(mism), "path": path, "model": model, "member": mism[0] if mism else None,
+           "note": "" if mism else "no case of the native family deviates from the statement: " + "; ".join(lines[:2])}
+    with open(path, "w") as f:
+        f.write(f"# spec clause violated in the encoding of {ob['target']}: {ob['msg']}\n# SMT model: {json.dumps(model)}\n")
+        f.write("# native realisation through the public API (harness/native_spec.rs):\n" + "\n".join(lines) + "\n")
+        f.write("# re-run: cd /repo/clap_builder && RUSTFLAGS='--cfg clap_verif' CLAP_VERIF_DIR=/verif/harness VERIF_SPEC_TARGET=" + ob["target"] +
+                " cargo test --lib --no-default-features --features std,help,usage,error-context verif_harness::native_spec -- --nocapture\n")
     return res
 
 
